@@ -210,6 +210,69 @@ pub fn check(sc: &Scenario, ex: &mut Exec) -> (Verdict, Option<String>) {
     }
     plans.push(("release_all".into(), base.clone().release_all()));
     plans.push(("release_none".into(), base.clone().release_none()));
+    // the noise reaches every cell it is meant for: each noise map, executed on D with its own
+    // draws forced to +1 and to -1 sigma, must give two different values in every noised cell
+    // (a clamp can hold one of them, not both, unless it is a single point). A cell that reads the
+    // same under both draws is published without noise whatever the other cells do.
+    for m in &scan.noise_maps {
+        let sql = pipeline::render(&m.map);
+        let mut up = base.clone().release_all();
+        let mut down = base.clone().release_all();
+        for c in &m.cols {
+            up = up.with_site_z(c.u1_site, c.u2_site, 1.0);
+            down = down.with_site_z(c.u1_site, c.u2_site, -1.0);
+        }
+        let (Ok((ru, _)), Ok((rd, _))) = (ex.query(&mut eng, "noise_map_up", &sql, &up), ex.query(&mut eng, "noise_map_down", &sql, &down)) else {
+            ex.stats.probe("noise_reach_skipped_engine_gap");
+            continue;
+        };
+        // what the pre-noise values predict: a value far outside the clamp (sizes declared too
+        // small) legitimately reads the same boundary under both draws
+        let Ok((rx, _)) = ex.query(&mut eng, "noise_map_input", &pipeline::render(&m.input), &base) else { continue };
+        if ru.rows.len() != rd.rows.len() || rx.rows.len() != ru.rows.len() {
+            continue;
+        }
+        for c in &m.cols {
+            let (Some(iu), Some(id), Some(ix)) = (ru.col(&c.name), rd.col(&c.name), c.input_col.as_deref().and_then(|n| rx.col(n))) else { continue };
+            if !(c.sigma > 0.0) || !c.sigma.is_finite() {
+                continue;
+            }
+            let (lo, hi) = c.clamp.unwrap_or((f64::NEG_INFINITY, f64::INFINITY));
+            let expected_same = rx
+                .rows
+                .iter()
+                .filter(|r| {
+                    let x = num(&r[ix]).unwrap_or(0.0);
+                    (x + c.sigma).clamp(lo, hi) == (x - c.sigma).clamp(lo, hi) || !(c.sigma > 1e-9 * (x.abs() + 1.0))
+                })
+                .count();
+            let observed_same = ru
+                .rows
+                .iter()
+                .zip(rd.rows.iter())
+                .filter(|(a, b)| match (num(&a[iu]), num(&b[id])) {
+                    (Some(x), Some(y)) => x == y,
+                    (None, None) => true,
+                    _ => false,
+                })
+                .count();
+            if observed_same > expected_same {
+                violations.push(Violation {
+                    property: "C02".into(),
+                    invariant: "noise_does_not_reach_cell".into(),
+                    class: "unclassified".into(),
+                    detail: format!(
+                        "column {} of a noise-adding map reads the same in {} cell(s) whether its Gaussian draw is forced to +1 or to -1 sigma (sigma {}), although the pre-noise values and the clamp {:?} explain that for {} cell(s) only: a cell is published without noise",
+                        c.name, observed_same, c.sigma, c.clamp, expected_same
+                    ),
+                    witness: json!({"column": c.name, "cells_unmoved": observed_same, "cells_explained_by_clamp": expected_same, "sigma": c.sigma, "clamp": c.clamp}),
+                });
+            }
+        }
+        if !violations.is_empty() {
+            return (Verdict::Violations(violations), Some(coarse_shape(sc, "noise_reach")));
+        }
+    }
     let mut on_d: Vec<ResultSet> = vec![];
     for (name, p) in &plans {
         match ex.query(&mut eng, &format!("dp_D_{}", name), &dp_sql, p) {
